@@ -90,6 +90,10 @@ class C14(Property):
                 return gen.wrap("complete", p, menu=0)
             return p
         opts["p"] = deco(opts["p"])
+        # one-letter aliases for commands (`build` / `b`)
+        for x in gen.walk(opts):
+            if x["k"] == "cmd" and not x["shorts"] and rng.random() < 0.4:
+                x["shorts"] = [names.short()]
         return opts
 
     def alt_pos_family(self, rng, k):
@@ -155,6 +159,12 @@ class C14(Property):
                     if nxt is not None and nxt.kind == "cmdname":
                         nm = nxt.items[0].decode("utf-8", "ignore")
                         typed_opts.append((nm[:max(1, len(nm) // 2)], "cmdprefix"))
+                        if nxt.node["shorts"]:
+                            # a word that merely BEGINS with the one-letter alias is not the alias
+                            sh = nxt.node["shorts"][0]
+                            typed_opts.append((sh, "cmdalias"))
+                            typed_opts.append((sh + rng.choice(["x", "ar", ".txt", sh]), "cmdalias-longer"))
+                            typed_opts.append((sh + rng.choice(["x", "ar", ".txt", sh]), "cmdalias-longer"))
                     for typed, kind in rng.sample(typed_opts, min(3, len(typed_opts))):
                         tail = list(typed) if isinstance(typed, tuple) else [typed]
                         argv = gen.flatten(before) + [t.encode() for t in tail]
